@@ -380,3 +380,387 @@ def pywf(mod):
         if r:
             return '%s:%s' % (f[0], r)
     return None
+
+
+# ------------------------------------------------------------------ IRStore scenarios (tie H of Model/IRStore.v)
+VALS = [0, 1, 2, 3]          # pure values (ir.Parameter objects), instruction ids start at 10
+BLKS = [0, 1, 2, 3]          # block 0 holds the instructions, 1..3 are jump targets / phi input blocks
+
+
+def gen_scenario(rng):
+    """(specs, op): specs = [(id, spec)], spec = ('plain', [(slot, v)]) | ('call', callee, [v]) |
+    ('phi', [(b, v)]) | ('jump', [(slot, v)], [(name, b)]); biased towards repeated operands"""
+    def val(pool):
+        return rng.choice(pool)
+    specs = []
+    pool = list(VALS[:3])
+    n = rng.randint(1, 3)
+    for k in range(n):
+        i = 10 + k
+        few = pool[:2] if rng.random() < 0.6 else pool
+        kind = rng.choice(['plain', 'plain', 'call', 'phi'])
+        if kind == 'plain':
+            sp = ('plain', [('a', val(few)), ('b', val(few))] if rng.random() < 0.8 else [('a', val(few))])
+        elif kind == 'call':
+            sp = ('call', val(few), [val(few) for _ in range(rng.randint(0, 3))])
+        else:
+            bs = rng.sample(BLKS[1:], rng.randint(1, 3))
+            sp = ('phi', [(b, val(few)) for b in bs])
+        specs.append((i, sp))
+        pool.append(i)
+    j = 10 + n
+    if rng.random() < 0.7:
+        if rng.random() < 0.7:
+            t1 = rng.choice(BLKS[1:])
+            t2 = t1 if rng.random() < 0.4 else rng.choice(BLKS[1:])
+            few = pool[:2] if rng.random() < 0.6 else pool
+            specs.append((j, ('jump', [('a', val(few)), ('b', val(few))], [('lab_yes', t1), ('lab_no', t2)])))
+        else:
+            specs.append((j, ('jump', [], [('target', rng.choice(BLKS[1:]))])))
+    ids = [i for i, _ in specs]
+    anyv = pool + [VALS[3]]
+    kinds = {i: sp[0] for i, sp in specs}
+    phis = [i for i in ids if kinds[i] == 'phi']
+    jumps = [i for i in ids if kinds[i] == 'jump']
+    choice = rng.random()
+    if choice < 0.3:
+        op = ('replace_use', rng.choice(ids), val(anyv), val(anyv))
+    elif choice < 0.5:
+        op = ('replace_by', val(anyv), val(anyv))
+    elif choice < 0.58:
+        cand = [i for i in ids if kinds[i] in ('plain', 'jump') and (specs[ids.index(i)][1][1])]
+        if cand:
+            c = rng.choice(cand)
+            op = ('set_var', c, rng.choice([n for n, _ in specs[ids.index(c)][1][1]]), val(anyv))
+        else:
+            op = ('replace_by', val(anyv), val(anyv))
+    elif choice < 0.68 and phis:
+        op = ('set_incoming', rng.choice(phis), rng.choice(BLKS[1:]), val(anyv))
+    elif choice < 0.76 and phis:
+        op = ('del_incoming', rng.choice(phis), rng.choice(BLKS[1:]))
+    elif choice < 0.84 and phis:
+        op = ('replace_incoming', 0, rng.choice(BLKS[1:]),
+              [rng.choice(BLKS[1:]) for _ in range(rng.randint(0, 2))])
+    elif choice < 0.9 and jumps:
+        j = jumps[0]
+        name = rng.choice([n for n, _ in specs[ids.index(j)][1][2]])
+        op = ('set_target', j, name, rng.choice(BLKS[1:]))
+    elif choice < 0.94 and jumps:
+        op = ('change_target', jumps[0], rng.choice(BLKS[1:]), rng.choice(BLKS[1:]))
+    elif choice < 0.97:
+        op = ('detach_delete', rng.choice(ids))
+    else:
+        op = ('remove_from_block', rng.choice(ids))
+    return specs, op
+
+
+def _cn(xs):
+    return '[%s]' % '; '.join(str(x) for x in xs)
+
+
+def _cpairs(ps, strkey):
+    return '[%s]' % '; '.join('(%s, %d)' % ('"%s"%%string' % a if strkey else str(a), b) for a, b in ps)
+
+
+def scenario_to_coq(specs, op):
+    ss = []
+    for i, sp in specs:
+        if sp[0] == 'plain':
+            t = 'SPlain %s' % _cpairs(sp[1], True)
+        elif sp[0] == 'call':
+            t = 'SCall %d %s' % (sp[1], _cn(sp[2]))
+        elif sp[0] == 'phi':
+            t = 'SPhi %s' % _cpairs(sp[1], False)
+        else:
+            t = 'SJump %s %s' % (_cpairs(sp[1], True), _cpairs(sp[2], True))
+        ss.append('(%d, %s)' % (i, t))
+    k = op[0]
+    if k == 'replace_use':
+        o = 'OReplaceUse %d %d %d' % op[1:]
+    elif k == 'replace_by':
+        o = 'OReplaceBy %d %d' % op[1:]
+    elif k == 'set_var':
+        o = 'OSetVar %d "%s"%%string %d' % op[1:]
+    elif k == 'set_incoming':
+        o = 'OSetIncoming %d %d %d' % op[1:]
+    elif k == 'del_incoming':
+        o = 'ODelIncoming %d %d' % op[1:]
+    elif k == 'replace_incoming':
+        o = 'OReplaceIncoming %d %d %s' % (op[1], op[2], _cn(op[3]))
+    elif k == 'set_target':
+        o = 'OSetTarget %d "%s"%%string %d' % op[1:]
+    elif k == 'change_target':
+        o = 'OChangeTarget %d %d %d' % op[1:]
+    elif k == 'detach_delete':
+        o = 'ODetachDelete %d' % op[1]
+    else:
+        o = 'ORemoveFromBlock %d' % op[1]
+    return '[%s]%%nat' % '; '.join(ss), '(%s)%%nat' % o
+
+
+def run_real_scenario(specs, op):
+    """execute the scenario on real ppci.ir objects; returns the observation tuple or 'internal'"""
+    m = ir.Module('m')
+    f = ir.Procedure('f', ir.Binding.GLOBAL)
+    m.add_function(f)
+    B = {k: ir.Block('b%d' % k) for k in BLKS}
+    for k in BLKS:
+        f.add_block(B[k])
+    f.entry = B[0]
+    obj = {v: ir.Parameter('v%d' % v, ir.ptr) for v in VALS}
+    for v in VALS:
+        f.add_parameter(obj[v])
+    key = {id(o): v for v, o in obj.items()}
+    bkey = {id(b): k for k, b in B.items()}
+    order = []
+    try:
+        for i, sp in specs:
+            nm = 'i%d' % i
+            if sp[0] == 'plain':
+                vs = [obj[v] for _, v in sp[1]]
+                o = ir.Binop(vs[0], '+', vs[1], nm, ir.ptr) if len(vs) == 2 else ir.Unop('-', vs[0], nm, ir.ptr)
+            elif sp[0] == 'call':
+                o = ir.FunctionCall(obj[sp[1]], [obj[a] for a in sp[2]], nm, ir.ptr)
+            elif sp[0] == 'phi':
+                o = ir.Phi(nm, ir.ptr)
+                for b, v in sp[1]:
+                    o.set_incoming(B[b], obj[v])
+            else:
+                if sp[1]:
+                    o = ir.CJump(obj[sp[1][0][1]], '==', obj[sp[1][1][1]], B[sp[2][0][1]], B[sp[2][1][1]])
+                else:
+                    o = ir.Jump(B[sp[2][0][1]])
+            B[0].add_instruction(o)
+            obj[i] = o
+            key[id(o)] = i
+            order.append(i)
+        k = op[0]
+        if k == 'replace_use':
+            obj[op[1]].replace_use(obj[op[2]], obj[op[3]])
+        elif k == 'replace_by':
+            obj[op[1]].replace_by(obj[op[2]])
+        elif k == 'set_var':
+            setattr(obj[op[1]], op[2], obj[op[3]])
+        elif k == 'set_incoming':
+            obj[op[1]].set_incoming(B[op[2]], obj[op[3]])
+        elif k == 'del_incoming':
+            obj[op[1]].del_incoming(B[op[2]])
+        elif k == 'replace_incoming':
+            B[op[1]].replace_incoming(B[op[2]], [B[n] for n in op[3]])
+        elif k == 'set_target':
+            obj[op[1]].set_target_block(op[2], B[op[3]])
+        elif k == 'change_target':
+            obj[op[1]].change_target(B[op[2]], B[op[3]])
+        elif k == 'detach_delete':
+            obj[op[1]].block.remove_instruction(obj[op[1]])
+            obj[op[1]].delete()
+        else:
+            obj[op[1]].remove_from_block()
+    except Exception:      # noqa: BLE001
+        return 'internal'
+    insts = []
+    for i in order:
+        o = obj[i]
+        insts.append(([key[id(v)] for v in o._var_map.values()],
+                      [key[id(v)] for v in getattr(o, 'arguments', [])],
+                      [(bkey[id(b)], key[id(v)]) for b, v in getattr(o, 'inputs', {}).items()],
+                      [bkey[id(b)] for b in getattr(o, '_block_map', {}).values()],
+                      [key[id(v)] for v in o.uses],
+                      o.block is not None))
+    allv = VALS + order
+    ubs = [[key[id(u)] for u in obj[v].used_by] if hasattr(obj[v], 'used_by') else [] for v in allv]
+    refs = [[key[id(r)] for r in B[k].references] for k in BLKS]
+    blks = [[key[id(x)] for x in B[k].instructions] for k in BLKS]
+    return (insts, ubs, refs, blks), m
+
+
+def probe_fixes():
+    """which of the five ir.py repairs are present in the tree (by behaviour)"""
+    def ok(specs, op):
+        r = run_real_scenario(specs, op)
+        return r != 'internal' and not bookkeeping(r[1])
+    return {
+        'fx_replace_use': ok([(10, ('plain', [('a', 0), ('b', 0)]))], ('replace_use', 10, 0, 1)),
+        'fx_call': ok([(10, ('call', 0, [1, 1]))], ('replace_use', 10, 1, 2)),
+        'fx_phi_replace': ok([(10, ('phi', [(1, 0), (2, 0)]))], ('replace_use', 10, 0, 1)),
+        'fx_phi_incoming': ok([(10, ('phi', [(1, 0), (2, 0)]))], ('del_incoming', 10, 1)),
+        'fx_jump_delete': ok([(10, ('jump', [('a', 0), ('b', 1)], [('lab_yes', 1), ('lab_no', 1)]))],
+                             ('detach_delete', 10)),
+    }
+
+
+# ------------------------------------------------------------------ verifier model inputs (Model/Verify.v)
+def _refmaps(m, f):
+    vids, params, bids = {}, {}, {}
+    for k, p in enumerate(f.arguments):
+        params[id(p)] = k
+    for k, b in enumerate(f.blocks):
+        bids[id(b)] = k + 1
+        for i in b.instructions:
+            if isinstance(i, ir.Value):
+                vids[id(i)] = len(vids) + 1
+    gl = {id(g): g.name for g in list(m.externals) + list(m.variables) + list(m.functions)}
+
+    def ref(v):
+        if id(v) in vids:
+            return ('loc', vids[id(v)])
+        if id(v) in params:
+            return ('param', params[id(v)])
+        if id(v) in gl:
+            return ('glob', gl[id(v)])
+        return ('unres', v.name)
+    return ref, bids
+
+
+def vstates(m):
+    """stored uses (as refs, OrderedSet order) and stored predecessors (block ids, 0 = none)"""
+    out = []
+    for f in m.functions:
+        ref, bids = _refmaps(m, f)
+        uses = [[[ref(u) for u in i.uses] for i in b.instructions] for b in f.blocks]
+        preds = [[bids.get(id(getattr(r, 'block', None)), 0) for r in b.references] for b in f.blocks]
+        out.append((uses, preds))
+    return out
+
+
+def _cref(r):
+    if r[0] == 'loc':
+        return 'Loc %d' % r[1]
+    if r[0] == 'param':
+        return 'Param %d' % r[1]
+    return '%s "%s"' % ('Glob' if r[0] == 'glob' else 'Unres', r[1])
+
+
+def vstates_to_coq(vs):
+    def one(v):
+        uses, preds = v
+        u = '[%s]' % '; '.join('[%s]' % '; '.join('[%s]' % '; '.join(_cref(r) for r in ins) for ins in blk)
+                               for blk in uses)
+        # 0 is not a positive: a reference without block is rendered as an id beyond all blocks
+        n = len(preds)
+        p = '[%s]' % '; '.join('[%s]' % '; '.join('%d%%positive' % (b if b else n + 1) for b in blk)
+                               for blk in preds)
+        return 'mk_vstate %s %s' % (u, p)
+    return '[%s]' % '; '.join(one(v) for v in vs)
+
+
+def real_verify(m):
+    from ppci.irutils.verify import verify_module
+    from ppci.common import CompilerError
+    try:
+        verify_module(m)
+        return 'ok'
+    except (ValueError, TypeError, CompilerError):
+        return 'diag'
+    except Exception:       # noqa: BLE001
+        return 'internal'
+
+
+BREAKS = ('swap', 'foreign_operand', 'drop_phi_input', 'extra_phi_input', 'type_break', 'no_terminator',
+          'dup_name', 'retarget', 'stale_uses', 'unop_type')
+
+
+def mutate_break(rng, m, kind):
+    try:
+        return _mutate_break(rng, m, kind)
+    except Exception:      # noqa: BLE001  (the edit itself hit a defect of the mutators)
+        return False
+
+
+def _mutate_break(rng, m, kind):
+    """apply one deliberately breaking edit to a well-formed module (returns False if not applicable).
+    Edits go through the public mutators (bookkeeping stays consistent) except 'stale_uses'."""
+    fs = [f for f in m.functions if f.blocks]
+    if not fs:
+        return False
+    f = rng.choice(fs)
+    blocks = list(f.blocks)
+    instrs = [(b, i) for b in blocks for i in b.instructions]
+    if kind == 'swap':
+        cand = [(b, k) for b in blocks for k in range(len(b.instructions) - 2)
+                if not b.instructions[k].is_phi and not b.instructions[k + 1].is_phi]
+        if not cand:
+            return False
+        b, k = rng.choice(cand)
+        b.instructions[k], b.instructions[k + 1] = b.instructions[k + 1], b.instructions[k]
+        return True
+    if kind == 'foreign_operand':
+        cand = [(b, i) for b, i in instrs if type(i) in (ir.Binop, ir.Unop, ir.Cast)]
+        vals = [i for _, i in instrs if isinstance(i, ir.Value)]
+        if not cand:
+            return False
+        b, i = rng.choice(cand)
+        old = operands(i)[0]
+        same = [v for v in vals if v.ty is old.ty and v is not old and v is not i]
+        if not same:
+            return False
+        i.replace_use(old, rng.choice(same))
+        return True
+    phis = [(b, i) for b, i in instrs if type(i) is ir.Phi and i.inputs]
+    if kind == 'drop_phi_input':
+        if not phis:
+            return False
+        b, p = rng.choice(phis)
+        p.del_incoming(rng.choice(list(p.inputs)))
+        return True
+    if kind == 'extra_phi_input':
+        if not phis:
+            return False
+        b, p = rng.choice(phis)
+        others = [x for x in blocks if x not in p.inputs and x not in b.predecessors]
+        if not others:
+            return False
+        p.set_incoming(rng.choice(others), list(p.inputs.values())[0])
+        return True
+    if kind in ('type_break', 'unop_type'):
+        want = (ir.Unop,) if kind == 'unop_type' else (ir.Binop, ir.Load, ir.Store, ir.CJump)
+        cand = [(b, i) for b, i in instrs if type(i) in want]
+        vals = [i for _, i in instrs if isinstance(i, ir.Value)] + list(f.arguments)
+        if not cand:
+            return False
+        b, i = rng.choice(cand)
+        old = operands(i)[-1]
+        other = [v for v in vals if v.ty is not old.ty and v is not i]
+        if not other:
+            return False
+        i.replace_use(old, rng.choice(other))
+        return True
+    if kind == 'no_terminator':
+        b = rng.choice(blocks)
+        if rng.random() < 0.5:
+            t = b.instructions[-1]
+            b.remove_instruction(t)
+            t.delete()
+        else:
+            c = ir.Const(1, 'late', ir.i32)
+            c.block = b
+            b.instructions.append(c)
+        return True
+    if kind == 'dup_name':
+        vals = [i for _, i in instrs if isinstance(i, ir.Value)]
+        if len(vals) < 2:
+            return False
+        a, c = rng.sample(vals, 2)
+        a.name = c.name if rng.random() < 0.7 else rng.choice(blocks).name
+        return True
+    if kind == 'retarget':
+        jumps = [i for _, i in instrs if type(i) in (ir.Jump, ir.CJump)]
+        if not jumps:
+            return False
+        j = rng.choice(jumps)
+        old = rng.choice(j.targets)
+        j.change_target(old, rng.choice(blocks))
+        return True
+    if kind == 'stale_uses':
+        cand = [(b, i) for b, i in instrs if type(i) in (ir.Binop, ir.Unop, ir.Cast)]
+        vals = [i for _, i in instrs if isinstance(i, ir.Value)]
+        if not cand:
+            return False
+        b, i = rng.choice(cand)
+        name = rng.choice(list(i._var_map))
+        same = [v for v in vals if v.ty is i._var_map[name].ty and v is not i]
+        if not same:
+            return False
+        i._var_map[name] = rng.choice(same)       # operand changed behind the bookkeeping's back
+        return True
+    return False
